@@ -620,6 +620,15 @@ def rule_nan_frontends(ctx, R):
         for k, i in enumerate(parses):
             n += 1
             ok = any(body is b and any(r[0] == "call" and r[2] == i for r in P.roots) for body, j, P in tests)
+            if not ok:
+                # the test as a predicate closure on the parsed value:
+                # `s.parse::<f64>().ok().filter(|x| !x.is_nan()).ok_or(..)`
+                for j, tj in b.calls():
+                    if tj.get("clos") and re.search(r"^std::option::Option::<f64>::(filter|is_some_and|is_none_or|take_if)(::<.*>)?$|^std::result::Result::<f64, .*>::(is_ok_and|and_then)(::<.*>)?$", tj["f"] or "") and tj["a"] and not op_is_const(tj["a"][0]):
+                        Pj = prov.operand_origins(b, tj["a"][0], deep=True)
+                        if any(r[0] == "call" and r[2] == i for r in Pj.roots) or any(bb_ == i for _, bb_ in Pj.via):
+                            if any(NAN_TEST.search(tt["f"] or "") for c in tj["clos"] if c in ctx.prog.bodies for _, _, tt in shared.deep_calls(ctx, ctx.prog.bodies[c])):
+                                ok = True
             R.inst(fn, "parsed-score#%d" % k, {"function": fn, "at": b.loc(i), "nan_tested_here": ok})
             if not ok:
                 R.finding(fn, "parsed-score#%d:nan-not-refused-before-the-engine" % k,
